@@ -9,6 +9,7 @@ import (
 	"os/exec"
 	"path/filepath"
 	"regexp"
+	"runtime"
 	"strings"
 	"sync/atomic"
 	"syscall"
@@ -43,16 +44,22 @@ func execRun(bin string, s *spec.RunSpec, wallLimit time.Duration) *spec.RunResu
 	ctx, cancel := context.WithTimeout(context.Background(), wallLimit)
 	defer cancel()
 	cmd := exec.CommandContext(ctx, bin, "-test.run", "^TestRun$", "-test.timeout", "0")
+	gogc := "GOGC=off" // the collector's timing must not perturb the schedule
+	if strings.Contains(filepath.Base(bin), ".race.") {
+		gogc = "GOGC=100" // race-detector runs are not compared for determinism; shadow memory is large
+	}
 	cmd.Env = append(os.Environ(),
 		"VSIM_SPEC="+sp, "VSIM_OUT="+op,
-		"GOMAXPROCS=1", "GOGC=off", "GODEBUG=asyncpreemptoff=1,randseednop=0",
+		"GOMAXPROCS=1", gogc, "GODEBUG=asyncpreemptoff=1,randseednop=0",
 		"GOTRACEBACK=all")
-	cmd.SysProcAttr = &syscall.SysProcAttr{Setpgid: true}
+	cmd.SysProcAttr = &syscall.SysProcAttr{Setpgid: true, Pdeathsig: syscall.SIGKILL} // no orphans if the driver is killed
 	var stderr bytes.Buffer
 	cmd.Stderr = &stderr
 	cmd.Stdout = &stderr
 	t0 := time.Now()
+	runtime.LockOSThread() // Pdeathsig is tied to the spawning thread: keep it for the child's lifetime
 	err := cmd.Run()
+	runtime.UnlockOSThread()
 	wall := time.Since(t0)
 	res := &spec.RunResult{Property: s.Property, Seed: s.Seed}
 	if rb, rerr := os.ReadFile(op); rerr == nil {
